@@ -503,7 +503,13 @@ package pongo2
 //@   pure as StrTrimSpace
 //@ extern strings.Repeat(s, count) (r0)
 //@   requires {C01} @non-negative count >= 0
+//@   requires {C01} @padding-stays-under-the-cap count <= maxCharPadding
 //@   ensures len(r0) == len(s) * count
+
+// resource caps (C01): the precision handed to the float formatter (it allocates that many digits) is capped;
+// a negative precision asks for the shortest representation
+//@ extern strconv.FormatFloat(f, fmt, prec, bitSize) (r0)
+//@   requires {C01} @precision-stays-under-the-cap prec <= maxFloatFormatDecimals
 
 // slice: Python slicing
 //@ spec pyLo(n int, a int) int = ite(a < 0, max(n + a, 0), min(a, n))
@@ -1058,6 +1064,7 @@ package pongo2
 //@   ensures {C06,C16} @end-of-input-consumes-nothing old(l.pos) >= len(l.input) ==> (r0 == lexerEOF && l.width == 0 && l.pos == old(l.pos) && l.col == old(l.col))
 //@   ensures {C06,C16} @one-rune-forward old(l.pos) < len(l.input) ==> (r0 != lexerEOF && 1 <= l.width && l.pos == old(l.pos) + l.width && l.col == wrap64(old(l.col) + l.width) && l.pos <= len(l.input))
 //@   ensures {C06,C16} @ascii-is-the-byte (old(l.pos) < len(l.input) && strat(l.input, old(l.pos)) < 128) ==> (r0 == strat(l.input, old(l.pos)) && l.width == 1)
+//@   ensures {C06,C16} @a-small-rune-is-the-byte (r0 != lexerEOF && r0 < 128) ==> (r0 == strat(l.input, old(l.pos)) && l.width == 1)
 //@   ensures {C06,C16} @nothing-else-moves l.start == old(l.start) && l.line == old(l.line) && l.startline == old(l.startline) && l.startcol == old(l.startcol) && l.input == old(l.input) && len(l.tokens) == old(len(l.tokens))
 //@ func (*lexer).backup
 //@   requires {C01,C06} @undoes-the-last-step l.width <= l.pos - l.start
@@ -1074,10 +1081,16 @@ package pongo2
 //@   ensures {C06,C16} @looks-without-moving l.pos == old(l.pos) && l.col == old(l.col) && l.start == old(l.start) && l.line == old(l.line) && len(l.tokens) == old(len(l.tokens)) && l.input == old(l.input)
 //@   ensures {C06,C16} @end-of-input-is-the-sentinel (r0 == lexerEOF) == (l.pos >= len(l.input))
 //@   ensures {C06,C16} @ascii-is-the-byte (l.pos < len(l.input) && strat(l.input, l.pos) < 128) ==> r0 == strat(l.input, l.pos)
+//@   ensures {C06,C16} @a-small-rune-is-the-byte (r0 != lexerEOF && r0 < 128) ==> r0 == strat(l.input, l.pos)
 // run: literal text between constructs is emitted as it stands; only delimiters and comments are dropped
 //@ func (*lexer).run
 //@   invariant 0 {C01,C06} @position-in-range 0 <= l.start && l.start <= l.pos && l.pos <= len(l.input)
 //@   invariant 1 {C01,C06} @inside-the-comment 0 <= l.start && l.start + 2 <= l.pos && l.pos <= len(l.input) && prefixat(l.input, l.start, "{#")
+//@   decreases 0 {C01} @every-round-consumes-input len(l.input) - l.pos
+//@   decreases 1 {C01} @every-character-of-the-comment-consumes-input len(l.input) - l.pos
+//@   invariant 1 {C16} @column-moves-with-the-position-inside-a-comment wrap64(l.col - l.pos) == atiter(0, wrap64(l.col - l.pos)) && l.line == atiter(0, l.line)
+//@   iterend 0 {C16} @the-column-moves-with-the-position-unless-a-line-ends l.line == old(l.line) ==> wrap64(l.col - l.pos) == old(wrap64(l.col - l.pos))
+//@   iterend 0 {C16} @a-new-line-starts-right-after-a-newline-character l.line != old(l.line) ==> (l.line == wrap64(old(l.line) + 1) && l.col == 1 && l.pos == old(l.pos) + 1 && strat(l.input, old(l.pos)) == 10)
 //@   at (*lexer).emit requires {C06} @literal-text-becomes-an-html-token arg1 == TokenHTML && l.start < l.pos
 //@   at (*lexer).ignore#0 requires {C06} @drops-exactly-the-endverbatim-delimiter l.pos - l.start == 17
 //@   at (*lexer).ignore#1 requires {C06} @drops-exactly-the-verbatim-delimiter l.pos - l.start == 14 && prefixat(l.input, l.start, "{% verbatim %}")
@@ -1086,11 +1099,58 @@ package pongo2
 //@   at (*lexer).ignore#2 requires {C06} @comments-are-recognised-outside-verbatim-blocks-only !l.inVerbatim
 //@   at (*lexer).next#1 requires {C06} @a-character-is-literal-text-only-where-no-construct-starts l.inVerbatim || (!prefixat(l.input, l.pos, "{#") && !prefixat(l.input, l.pos, "{{") && !prefixat(l.input, l.pos, "{%"))
 //@   at (*lexer).tokenize requires {C06} @code-starts-at-an-opening-delimiter l.start == l.pos && !l.inVerbatim && (prefixat(l.input, l.pos, "{{") || prefixat(l.input, l.pos, "{%"))
-// the state functions are entered with nothing pending (run and the previous state emitted or ignored it);
-// they are called through function values, so this protocol is ASSUMED at their entry (not checked at tokenize)
+// the state functions are reached through values of type lexerStateFn. Such values are exactly the bound state
+// methods of a lexer (the type is unexported and these are the only functions of that signature whose address is
+// taken), so a call through one is checked against the contract of each possible target (flag dispatch).
+//@ functype lexerStateFn() (r0)
+//@   flag dispatch
+// the table of symbols is a package variable that only the package initialiser writes; that no entry is the empty
+// string is ASSUMED (an application that empties an entry of this exported table makes the lexer spin)
+//@ axiom forall i int :: (0 <= i && i < len(TokenSymbols)) ==> len(TokenSymbols[i]) > 0
+//@ writers {C01} G|TokenSymbols init
+//@ func (*lexer).accept
+//@   ensures {C01,C06,C16} @takes-one-character-or-nothing (r0 ==> (1 <= l.width && l.pos == old(l.pos) + l.width)) && (!r0 ==> l.pos == old(l.pos))
+//@   ensures {C16} @column-moves-with-the-position wrap64(l.col - l.pos) == old(wrap64(l.col - l.pos))
+//@ func (*lexer).acceptRun
+//@   decreases 0 {C01} @every-accepted-character-consumes-input len(l.input) - l.pos
+//@   invariant 0 {C01,C06,C16} @only-forward l.pos >= old(l.pos) && l.start == old(l.start) && wrap64(l.col - l.pos) == old(wrap64(l.col - l.pos))
+//@   ensures {C01,C06,C16} @only-forward l.pos >= old(l.pos)
+//@   ensures {C16} @column-moves-with-the-position wrap64(l.col - l.pos) == old(wrap64(l.col - l.pos))
+// tokenize runs the state machine: stateCode is entered with nothing pending, every other state hands back to
+// stateCode, and each round trip consumes input
+//@ func (*lexer).tokenize
+//@   requires {C06} @nothing-pending l.start == l.pos
+//@   invariant 0 {C01,C06,C16} @next-state-belongs-to-this-lexer state == nil || (fnis(state, "(*lexer).stateCode") && boundrecv(state, "(*lexer).stateCode") == l && l.start == l.pos) || (fnis(state, "(*lexer).stateIdentifier") && boundrecv(state, "(*lexer).stateIdentifier") == l) || (fnis(state, "(*lexer).stateNumber") && boundrecv(state, "(*lexer).stateNumber") == l) || (fnis(state, "(*lexer).stateString") && boundrecv(state, "(*lexer).stateString") == l)
+//@   invariant 0 {C16} @column-moves-with-the-position wrap64(l.col - l.pos) == old(wrap64(l.col - l.pos))
+//@   invariant 0 {C01,C06} @only-forward l.pos >= old(l.pos)
+//@   decreases 0 {C01} @every-round-trip-consumes-input (len(l.input) - l.pos) + (len(l.input) - l.pos) + ite(state == nil, 0, ite(fnis(state, "(*lexer).stateCode"), 1, 2))
+//@   ensures {C16} @column-moves-with-the-position wrap64(l.col - l.pos) == old(wrap64(l.col - l.pos))
+//@   ensures {C01,C06} @only-forward l.pos >= old(l.pos)
+// tokenize is entered at "{{" or "{%"; that the symbol table holds these delimiters (so that stateCode consumes them) is ASSUMED
+//@   ensures @assume-an-opening-delimiter-is-a-symbol l.errored || l.pos > old(l.pos)
 //@ func (*lexer).stateCode
-//@   requires @assume-nothing-pending l.start == l.pos
-//@   invariant 0 {C01} @nothing-pending-at-each-round l.start == l.pos
+//@   requires {C06} @nothing-pending l.start == l.pos
+//@   invariant 0 {C01,C06} @nothing-pending-at-each-round l.start == l.pos && l.pos >= old(l.pos)
+//@   invariant 0 {C16} @column-moves-with-the-position wrap64(l.col - l.pos) == old(wrap64(l.col - l.pos))
+//@   invariant 1 {C01,C06} @nothing-pending-while-looking-for-a-symbol l.start == l.pos && l.pos >= old(l.pos)
+//@   invariant 1 {C16} @column-moves-with-the-position wrap64(l.col - l.pos) == old(wrap64(l.col - l.pos))
+//@   decreases 0 {C01} @every-round-consumes-input len(l.input) - l.pos
+//@   ensures {C01,C06} @only-forward l.pos >= old(l.pos)
+//@   ensures {C01,C06} @hands-over-with-one-character-taken r0 != nil ==> l.pos > old(l.pos)
+//@   ensures {C01,C06} @next-state-is-a-state-of-this-lexer r0 != nil ==> (((fnis(r0, "(*lexer).stateIdentifier") && boundrecv(r0, "(*lexer).stateIdentifier") == l) || (fnis(r0, "(*lexer).stateNumber") && boundrecv(r0, "(*lexer).stateNumber") == l) || (fnis(r0, "(*lexer).stateString") && boundrecv(r0, "(*lexer).stateString") == l)))
+//@   ensures {C16} @column-moves-with-the-position wrap64(l.col - l.pos) == old(wrap64(l.col - l.pos))
+//@ func (*lexer).stateIdentifier
+//@   ensures {C01,C06} @back-to-code-with-nothing-pending l.pos >= old(l.pos) && (r0 != nil ==> (fnis(r0, "(*lexer).stateCode") && boundrecv(r0, "(*lexer).stateCode") == l && l.start == l.pos))
+//@   ensures {C16} @column-moves-with-the-position wrap64(l.col - l.pos) == old(wrap64(l.col - l.pos))
+//@ func (*lexer).stateNumber
+//@   ensures {C01,C06} @back-to-code-with-nothing-pending l.pos >= old(l.pos) && (r0 != nil ==> (fnis(r0, "(*lexer).stateCode") && boundrecv(r0, "(*lexer).stateCode") == l && l.start == l.pos))
+//@   ensures {C16} @column-moves-with-the-position wrap64(l.col - l.pos) == old(wrap64(l.col - l.pos))
+//@ func (*lexer).stateString
+//@   decreases 0 {C01} @every-character-of-the-literal-consumes-input len(l.input) - l.pos
+//@   invariant 0 {C01,C06} @only-forward l.pos >= old(l.pos) && l.start == old(l.pos)
+//@   invariant 0 {C16} @column-moves-with-the-position wrap64(l.col - l.pos) == old(wrap64(l.col - l.pos))
+//@   ensures {C01,C06} @back-to-code-with-nothing-pending l.pos >= old(l.pos) && (r0 != nil ==> (fnis(r0, "(*lexer).stateCode") && boundrecv(r0, "(*lexer).stateCode") == l && l.start == l.pos))
+//@   ensures {C16} @column-moves-with-the-position wrap64(l.col - l.pos) == old(wrap64(l.col - l.pos))
 // the parser wraps each text token in one node; dashes on the neighbouring delimiters decide the trimming
 //@ func (*Parser).parseDocElement
 //@   at store[nodeHTML.token] requires {C06,C15} @node-for-the-current-text-token v == t && t == p.tokens[p.idx] && t.Typ == TokenHTML
@@ -1132,6 +1192,7 @@ package pongo2
 //@ func (*lexer).backup
 //@   ensures {C16} @column-moves-with-the-position wrap64(l.col - l.pos) == old(wrap64(l.col - l.pos))
 //@ func (*lexer).errorf
+//@   ensures {C01,C06,C16} @stops-the-state-machine r0 == nil && l.pos == old(l.pos) && l.start == old(l.start)
 //@   ensures {C16} @error-token-at-the-pending-position len(l.tokens) == old(len(l.tokens)) + 1 && l.errored && l.tokens[old(len(l.tokens))].Typ == TokenError && l.tokens[old(len(l.tokens))].Line == old(l.startline) && l.tokens[old(len(l.tokens))].Col == old(l.startcol) && l.tokens[old(len(l.tokens))].Filename == l.name
 //@ func lex
 //@   at (*lexer).run requires {C16} @starts-at-line-one-column-one arg0.line == 1 && arg0.col == 1 && arg0.startline == 1 && arg0.startcol == 1 && arg0.pos == 0 && arg0.start == 0 && arg0.name == name && arg0.input == input
